@@ -121,11 +121,17 @@ package nitro
 //@ modifies none
 //@ ensures[def] result == f.checksum
 
+// closeFail counts rawFileWriter.Close calls that returned an error: callers' contracts say that such a failure
+// is not swallowed.
+//@ ghost global closeFail int
+
 //@ func (*rawFileWriter).Close
 //@ props C19 C12
 //@ use errs-nonnil
 //@ requires f != nil && f.db != nil && f.w != nil && f.fd != nil && wlen[f.w] >= 0 && len(f.buf) >= 4
-//@ modifies f.checksum, f.buf[0], f.buf[1], f.buf[2], f.buf[3], wout[f.w], wlen[f.w], wflushed[f.w], heap($alive), heap($brk)
+//@ modifies f.checksum, f.buf[0], f.buf[1], f.buf[2], f.buf[3], wout[f.w], wlen[f.w], wflushed[f.w], heap($alive), heap($brk), closeFail
+//@ ghost-exit if result != nil then closeFail := closeFail + 1
+//@ ensures[failure-counted] (result == nil && closeFail == old(closeFail)) || (result != nil && closeFail == old(closeFail) + 1)
 //@ ensures[frame-prefix] wlen[f.w] >= old(wlen[f.w]) && (forall i int :: 0 <= i && i < old(wlen[f.w]) ==> wout[f.w][i] == old(wout[f.w][i]))
 //@ ensures[terminator] result == nil ==> wlen[f.w] == old(wlen[f.w]) + 4 && wout[f.w][old(wlen[f.w])] == 0 && wout[f.w][old(wlen[f.w])+1] == 0 &&
 //@    wout[f.w][old(wlen[f.w])+2] == 0 && wout[f.w][old(wlen[f.w])+3] == 0
@@ -667,3 +673,57 @@ package nitro
 //@ loop 10 invariant[ctx] m != nil && jsonFail == old(jsonFail) && -1 <= rangeindex && rangelen == len(errors)
 //@ ensures[decode-error-reported] result1 == nil ==> jsonFail == old(jsonFail)
 //@ nopanic
+
+// ---------------------------------------------------------------------------
+// C12: StoreToDisk reports failures. closeWriters returns the first Close failure; the delta termination never
+// replaces an earlier error by success; StoreToDisk returns nil only if no shard writer failed to close.
+// ---------------------------------------------------------------------------
+
+//@ func (*Nitro).StoreToDisk$2
+//@ props C12
+//@ requires forall k int {ws[k]} :: 0 <= k && k < len(ws) && ws[k] != nil ==> wfWriter(cast(*rawFileWriter, ws[k]))
+//@ modifies elems(ws), closeFail, heap(rawFileWriter.checksum), mem(uint8), heap($g.wout), heap($g.wlen), heap($g.wflushed), heap($alive), heap($brk)
+//@ loop 1 invariant[idx] -1 <= rangeindex && rangelen == len(ws) && (forall k int {ws[k]} :: 0 <= k && k < len(ws) && ws[k] != nil ==> wfWriter(cast(*rawFileWriter, ws[k])))
+//@ loop 1 invariant[first-error] cerr == nil ==> closeFail == old(closeFail)
+//@ loop 1 invariant[closed] forall k int {ws[k]} :: 0 <= k && k <= rangeindex && k < len(ws) ==> ws[k] == nil
+//@ loop 1 invariant[todo] forall k int {ws[k]} :: rangeindex < k && k < len(ws) ==> ws[k] == old(ws[k])
+//@ loop 1 invariant[noop] (forall k int {old(ws[k])} :: 0 <= k && k < len(ws) ==> old(ws[k]) == nil) ==> closeFail == old(closeFail)
+//@ ensures[first-error] cerr == nil ==> closeFail == old(closeFail)
+//@ ensures[all-closed] forall k int {ws[k]} :: 0 <= k && k < len(ws) ==> ws[k] == nil
+//@ ensures[noop] (forall k int {old(ws[k])} :: 0 <= k && k < len(ws) ==> old(ws[k]) == nil) ==> closeFail == old(closeFail)
+//@ nopanic
+
+//@ pure wfWriter(f *rawFileWriter) bool = f != nil && f.db != nil && f.w != nil && f.fd != nil && wlen[f.w] >= 0 && len(f.buf) >= 4 && f + 80 <= brk()
+
+//@ func (*Nitro).StoreToDisk$3
+//@ props C12
+//@ requires[err-cell-separate] cell(err) + 16 <= ptr(deltaWriters) || cell(err) >= ptr(deltaWriters) + 16 * len(deltaWriters)
+//@ requires len(deltaChecksums) == len(deltaWriters) && (forall k int {deltaWriters[k]} :: 0 <= k && k < len(deltaWriters) ==> deltaWriters[k] != nil && wfWriter(cast(*rawFileWriter, deltaWriters[k])))
+//@ modifies *
+//@ call (*nitro.Nitro).changeDeltaWrState havoc none
+//@ loop 1 invariant[idx] -1 <= rangeindex && err == old(err) && rangelen == len(deltaWriters) && len(deltaChecksums) == len(deltaWriters) && (forall k int {deltaWriters[k]} :: 0 <= k && k < len(deltaWriters) ==> deltaWriters[k] != nil)
+//@ ensures[keep-first-error] old(err) != nil ==> err == old(err)
+//@ ensures[close-error] err == nil ==> closeFail == old(closeFail)
+
+//@ func (*Snapshot).Close
+//@ trusted sequential summary: drops one reference; retirement and collection side effects (snapshot lists, GC) are specified under C06/C08
+//@ requires s != nil
+//@ modifies s.refCount, heap($alive), heap($brk), heap(skiplist.Skiplist.$set), heap(skiplist.Node.$nx), heap(skiplist.Node.$del), heap(Nitro.lastGCSn), heap(Nitro.isGCRunning), mem(int32), heap(skiplist.Skiplist.$phys), heap(skiplist.Skiplist.$n)
+//@ ensures s.refCount == old(s.refCount) - 1
+
+//@ func (*Nitro).StoreToDisk
+//@ props C12
+//@ use errs-nonnil
+//@ requires m != nil && snap != nil && concurr >= 1
+//@ modifies *
+//@ call (*nitro.Nitro).Visitor havoc heap($alive), heap($brk), heap(Snapshot.refCount), heap(rawFileWriter.checksum), mem(uint8), heap($g.wout), heap($g.wlen), heap(skiplist.Stats.readConflicts), mem(int32), heap($g.cbN), heap($g.cbItem), heap($g.cbShard), heap($g.dIdx), heap($g.shardBase), heap($g.nShards)
+//@ call (*nitro.Nitro).changeDeltaWrState havoc none
+//@ call (*nitro.Nitro).numWriters havoc none
+//@ call (*nitro.rawFileWriter).Open havoc heap(rawFileWriter.fd), heap(rawFileWriter.w), heap(rawFileWriter.buf), heap($alive), heap($brk), mem(uint8)
+//@ loop 1 cut
+//@ loop 2 cut
+//@ loop 3 cut
+//@ loop 1 invariant[ctx] m != nil && snap != nil && closeFail == old(closeFail) && 0 <= shard && shards >= 1 && len(writers) == shards && len(files) == shards && len(checksums) == shards
+//@ loop 2 invariant[ctx] m != nil && snap != nil && closeFail == old(closeFail) && 0 <= id && len(writers) == shards && len(files) == shards && len(checksums) == shards && len(deltaWriters) == len(deltaFiles) && len(deltaChecksums) == len(deltaWriters)
+//@ loop 3 invariant[ctx] m != nil && closeFail == old(closeFail) && -1 <= rangeindex && rangelen == len(writers) && len(checksums) == len(writers) && err == nil
+//@ ensures[close-error] err == nil ==> closeFail == old(closeFail)
